@@ -12,16 +12,18 @@ requests presenting the same id in some order, arbitrarily interleaved with othe
 
 ## the statements
 
-* §1 `Rot4 w g` (world/ghost invariant), `Op4OK` (no `crashinside`), `Step4`, **`rot4_step`**: every operation of a
-  fault-free history keeps the invariant, its events respect the ghost (`Fine`), and the ghost changes only by a
-  replacement `X ⟶ gen n` with `n` minted *during this operation*.
-* §2 `runG4`, `traceOf` (all persistence events of a history, in order), `Hist4OK`, **`rot4_all_histories`**.
+* §1 `effEvs` (the persistence events of an operation that took effect: `Out.evs`, cut at the crash point when
+  `Out.frozen` says the process died inside the operation), `Rot4 w g` (world/ghost invariant), `Step4`, **`rot4_step`**:
+  every operation of a fault-free history — `crashinside` included — keeps the invariant, its effective events respect
+  the ghost (`Fine`), and the ghost changes only by a replacement `X ⟶ gen n` with `n` minted *during this operation*.
+* §2 `runG4`, `traceOf` (all effective persistence events of a history, in order), `Hist4OK` (= `HistOK`, nothing
+  more), **`rot4_all_histories`**.
 * §3 **`c04_rotated_once`** (part 1): in the trace of every such history, once a reference record `X ⟶ Y` has been
   written under `X`, every later save under `X` writes a reference record `X ⟶ Y` again: an id is turned into a
-  reference once and for all (`c04_never_full_again`), and to one target only (`c04_one_target`). The literal reading "at
-  most one event `.save X r` with `r.ref.isSome`" is FALSE in the model — a reference record that sits in the cache is
-  flushed again by `PurgeSessions`/eviction — see `c04_refsave_twice`; what is unique is the *replacement* (first
-  reference save, the only one that mints).
+  reference once and for all (`c04_never_full_again`), and to one target only (`c04_one_target`);
+  `c04_replaced_not_minted`. The literal reading "at most one event `.save X r` with `r.ref.isSome`" is FALSE in the
+  model — a reference record that sits in the cache is flushed again by `PurgeSessions`/eviction — see
+  `c04_refsave_twice`; what is unique is the *replacement* (first reference save, the only one that mints).
 * §4 (part 2) `c04_req_mints` (what a request presenting `X` can do to the id counter: nothing / deletion cookie and a
   brand-new session / rotation of `X`), `RotatesAt`, **`c04_one_mint_per_due_id`** (at most one step of a history mints
   an id for `X` by rotation), `c04_presented_mints_once` (of the requests presenting `X`, at most one mints without
@@ -29,16 +31,20 @@ requests presenting the same id in some order, arbitrarily interleaved with othe
 * §5 (part 3) `ServedAt`, `served_root`, **`c04_same_session`** (all requests presenting `X` that are given a session
   without a deletion cookie are given ids with the same session number `rootOf`, that of `X`), `c04_same_handle`.
 * §6 non-vacuity (`c04_script`: eviction + reload, purge, automatic and explicit rotation, the due id presented three
-  times, handler call after `Destroy`, crash) with `#guard`s for parts 1–3; `c04_refsave_twice`; the failing case without
-  `Op4OK` (`c04_crashinside_script`).
+  times, handler call after `Destroy`, crash) with `#guard`s for parts 1–3; `c04_refsave_twice`; a crash point inside a
+  rotation (`c04_crashinside_script`).
 
-## hypotheses, each with its failing case
+## hypotheses
 
 * `OrcOK` (fault-free), `OpOK` (no codec switch; `SoleObject`): inherited from the coherence invariant (`Sx.step_inv`;
-  failing cases in `Inv/Examples.lean`).
-* `Op4OK` — no `crashinside`: `c04_crashinside_fails` + the `#guard` below it (two reference saves under `gen 0` with
-  different targets). `crash` between operations, `dropcache`, the proviso of C07 (handler calls after `Destroy`) are
-  NOT excluded.
+  failing cases in `Inv/Examples.lean`). Nothing else: `crash`, `crashinside k`, `dropcache`, handler calls after
+  `Destroy` (the proviso of C07) are all allowed.
+* the trace consists of the events that **took effect**. With the events merely *shown* the statement would be false
+  when the process dies inside a rotation (`c04_crashinside_script`: the reference record `gen 0 ⟶ gen 1` is shown
+  but not written; after the restart `gen 0` is rotated again, to `gen 2`).
+* the request-level statements (`c04_req_mints`, `MintsFor`, `ServedAt`) speak about requests that arrive while the
+  process is alive and no crash point is armed (`skip = false`, `freezeAt = none`): a request inside which the process
+  dies sends no response.
 -/
 namespace Sx.Glob
 open Sx.More
@@ -46,54 +52,61 @@ open Sx.More.C10 (refAt refAt_of_lookup)
 
 /-! ## 1. the world invariant and one step of a history -/
 
-/-- the ghost update for one operation of a history: fold the persistence events it showed. -/
-def g4Step (g : G4) (out : Out) : G4 := out.evs.foldl g4Ev g
+/-- **the persistence events of an operation that took effect.** Normally all the events it shows (`Out.evs`); when
+the process died inside the operation (`crashinside k` struck: `Out.frozen = some (some k)`) only the first `k` store
+mutations shown were carried out. -/
+def effEvs (out : Out) : List Ev :=
+  match out.frozen with
+  | some (some k) => (out.evs.filter isMut).take k
+  | _ => out.evs
 
-/-- **the invariant of C04** at an operation boundary (on top of `WInv3`): the process did not die inside an
-operation (no `crashinside`), the store/ghost invariant `RI` holds, and the id of the request's session has not been
-replaced. -/
+/-- the ghost update for one operation of a history: fold the persistence events that took effect. -/
+def g4Step (g : G4) (out : Out) : G4 := (effEvs out).foldl g4Ev g
+
+/-- **the invariant of C04** at an operation boundary (on top of `WInv3`): the store/ghost invariant `RI` holds —
+always, also between a crash inside an operation and the restart —, and while the process is alive the id of the
+request's session has not been replaced. -/
 structure Rot4 (w : World) (g : G4) : Prop where
-  alive : w.skip = false ∧ w.freezeAt = none
   ri : RI w.st g
-  cur : ∀ h, w.cur = some h → lookup (w.st.obj h).id g.repl = none
-
-/-- **no crash point inside an operation.** With `crashinside k` an operation *shows* persistence events of which only
-the first `k` mutations took effect (`Out.frozen`); the reference record of a rotation may be among the events shown
-but not written, and after the restart the same id is rotated a second time, to another new id
-(`c04_crashinside_script`). -/
-def Op4OK : Op → Prop
-  | .crashinside _ => False
-  | _ => True
+  cur_req : ∀ h, w.cur = some h → w.inReq = true
+  cur : w.skip = false → ∀ h, w.cur = some h → lookup (w.st.obj h).id g.repl = none
 
 /-- how one operation changes the ghost: not at all, or by the replacement of one id `X` (not replaced before) by an
-id minted during this very operation, the reference record being among the events shown. -/
-def GhostCase (n0 n1 : Nat) (g g' : G4) (evs : List Ev) : Prop :=
-  g' = g ∨ ∃ X n, n0 ≤ n ∧ n < n1 ∧ lookup X g.repl = none ∧ g' = g.link X (.gen n) ∧
-    ∃ rc, Ev.save X rc ∈ evs ∧ rc.ref = some (.gen n)
+id minted during this very operation. -/
+def GhostCase (n0 n1 : Nat) (g g' : G4) : Prop :=
+  g' = g ∨ ∃ X n, n0 ≤ n ∧ n < n1 ∧ lookup X g.repl = none ∧ g' = g.link X (.gen n)
 
 /-- what one operation of a history guarantees. -/
 structure Step4 (w : World) (g : G4) (w' : World) (out : Out) : Prop where
   rot : Rot4 w' (g4Step g out)
-  fine : Fine g out.evs
+  fine : Fine g (effEvs out)
   next : w.st.nextId ≤ w'.st.nextId
-  ghost : GhostCase w.st.nextId w'.st.nextId g (g4Step g out) out.evs
+  ghost : GhostCase w.st.nextId w'.st.nextId g (g4Step g out)
 
 theorem rot4_finW {w : World} {g : G4} (hd : Rot4 w g) : Rot4 (finW w) g := by
   unfold finW
   split
-  · exact ⟨⟨rfl, hd.alive.2⟩, hd.ri.congr rfl rfl, fun h hc => hd.cur h hc⟩
+  · rename_i hc
+    simp only [Bool.and_eq_true, Bool.not_eq_true'] at hc
+    refine ⟨hd.ri.congr rfl rfl, hd.cur_req, ?_⟩
+    intro _ h hcur
+    have := hd.cur_req h hcur
+    rw [hc.2] at this; cases this
   · exact hd
 
 theorem finW_nextId (w : World) : (finW w).st.nextId = w.st.nextId := by
   unfold finW; split <;> rfl
 
+theorem finish_eff (w : World) (o : Out) : effEvs (finish w o).2 = effEvs o := by
+  unfold finish; split <;> rfl
+
 theorem step4_finish {w w' : World} {g : G4} {o : Out} (h : Step4 w g w' o) : Step4 w g (finish w' o).1 (finish w' o).2 := by
-  have he := finish_evs w' o
+  have he := finish_eff w' o
   have hg : g4Step g (finish w' o).2 = g4Step g o := by unfold g4Step; rw [he]
   refine ⟨?_, by rw [he]; exact h.fine, ?_, ?_⟩
   · rw [hg, finish_fst]; exact rot4_finW h.rot
   · rw [finish_fst, finW_nextId]; exact h.next
-  · rw [hg, he, finish_fst, finW_nextId]; exact h.ghost
+  · rw [hg, finish_fst, finW_nextId]; exact h.ghost
 
 theorem step4_input {w w' : World} {g : G4} {o : Out} (x : Option (Option ID)) (h : Step4 w g w' o) :
     Step4 w g w' { o with input := x } := ⟨h.rot, h.fine, h.next, h.ghost⟩
@@ -102,66 +115,149 @@ theorem step4_st {w w1 w' : World} {g : G4} {o : Out} (h : Step4 w1 g w' o) (e :
   ⟨h.rot, h.fine, by rw [← e]; exact h.next, by rw [← e]; exact h.ghost⟩
 
 /-- an operation that shows no persistence event. -/
-theorem step4_plain {w w' : World} {g : G4} {o : Out} (he : o.evs = []) (hr : Rot4 w' g) (hn : w.st.nextId ≤ w'.st.nextId) :
+theorem step4_plain {w w' : World} {g : G4} {o : Out} (he : effEvs o = []) (hr : Rot4 w' g) (hn : w.st.nextId ≤ w'.st.nextId) :
     Step4 w g (finish w' o).1 (finish w' o).2 := by
   apply step4_finish
   have hg : g4Step g o = g := by unfold g4Step; rw [he]; rfl
   exact ⟨by rw [hg]; exact hr, by rw [he]; trivial, hn, Or.inl hg⟩
 
-theorem apiCall_nextId (w : World) (orc : Orc) (run : State → State × RetV × Option String × List Ev) (b : Bool)
-    (hf : w.freezeAt = none) : (apiCall w orc run b).1.st.nextId = (run (orcSt w orc)).1.nextId := by
+theorem apiCall_nextId (w : World) (orc : Orc) (run : State → State × RetV × Option String × List Ev) (b : Bool) :
+    (apiCall w orc run b).1.st.nextId = (run (orcSt w orc)).1.nextId := by
   rw [apiCall_fst]
-  have hfz : ∀ evs, apiFrz w evs = none := by intro evs; unfold apiFrz; rw [hf]
   show (advance (apiMid w _ _) 1).1.nextId = _
   rw [(advance_delta _ 1).2.2.2.2.2.1]
-  unfold apiMid; rw [hfz]
+  unfold apiMid; split <;> rfl
+
+/-- the events of an API call that took effect. -/
+theorem apiCall_eff (w : World) (orc : Orc) (run : State → State × RetV × Option String × List Ev) (b : Bool) :
+    effEvs (apiCall w orc run b).2 =
+      match apiFrz w (run (orcSt w orc)).2.2.2 with
+      | none => (run (orcSt w orc)).2.2.2.filter (fun e => !isCookie e)
+      | some k => (apiMuts (run (orcSt w orc)).2.2.2).take k := by
+  unfold apiCall apiFrz apiMuts effEvs
+  show _ = match (match w.freezeAt with
+      | none => none
+      | some k => if k ≤ (((run { w.st with fails := orc.fails, picks := orc.picks }).2.2.2.filter
+          (fun e => !isCookie e)).filter isMut).length then some k else none) with
+    | none => (run { w.st with fails := orc.fails, picks := orc.picks }).2.2.2.filter (fun e => !isCookie e)
+    | some k => (((run { w.st with fails := orc.fails, picks := orc.picks }).2.2.2.filter
+          (fun e => !isCookie e)).filter isMut).take k
+  generalize run { w.st with fails := orc.fails, picks := orc.picks } = r
+  obtain ⟨s1, ret, msg, evs⟩ := r
+  simp only []
+  cases w.freezeAt with
+  | none => rfl
+  | some k =>
+    simp only []
+    by_cases hk : k ≤ (List.filter isMut (List.filter (fun e => !isCookie e) evs)).length
+    · simp only [hk, if_true]
+    · simp only [hk, if_false]
+
+theorem apiMuts_fold (g : G4) (evs : List Ev) : (apiMuts evs).foldl g4Ev g = evs.foldl g4Ev g := by
+  unfold apiMuts; rw [fold4_muts, fold4_filter]
+
+theorem apiMuts_fine {g : G4} {evs : List Ev} (h : Fine g evs) : Fine g (apiMuts evs) := by
+  unfold apiMuts; rw [fine_muts, fine_filter]; exact h
+
+theorem ghostCase_length {n0 n1 : Nat} {g g' : G4} (h : GhostCase n0 n1 g g') : g'.repl.length ≤ g.repl.length + 1 := by
+  rcases h with e | ⟨X, n, _, _, _, e⟩
+  · rw [e]; omega
+  · rw [e, link_repl_length]; omega
 
 /-- **one API call**: what the function run guarantees on the state with the oracles installed carries over to the
-world after the quiescence tick. -/
+world after the quiescence tick — and when an armed `crashinside k` strikes, the store left by the first `k` mutations
+agrees with the ghost folded over exactly these mutations. -/
 theorem api4 (w : World) (orc : Orc) (run : State → State × RetV × Option String × List Ev) (b : Bool)
-    {g : G4} (hal : w.skip = false ∧ w.freezeAt = none)
+    {g : G4} (hsk : w.skip = false) (hri0 : RI w.st g) (hcr : ∀ h, w.cur = some h → w.inReq = true)
     (hri : RI (run (orcSt w orc)).1 ((run (orcSt w orc)).2.2.2.foldl g4Ev g))
-    (hcur : ∀ h, (apiCall w orc run b).1.cur = some h →
+    (hcur : ∀ h, w.cur = some h →
       lookup ((run (orcSt w orc)).1.obj h).id ((run (orcSt w orc)).2.2.2.foldl g4Ev g).repl = none)
     (hfine : Fine g (run (orcSt w orc)).2.2.2) (hnext : w.st.nextId ≤ (run (orcSt w orc)).1.nextId)
-    (hgc : GhostCase w.st.nextId (run (orcSt w orc)).1.nextId g ((run (orcSt w orc)).2.2.2.foldl g4Ev g)
-      (run (orcSt w orc)).2.2.2) :
+    (hgc : GhostCase w.st.nextId (run (orcSt w orc)).1.nextId g ((run (orcSt w orc)).2.2.2.foldl g4Ev g)) :
     Step4 w g (apiCall w orc run b).1 (apiCall w orc run b).2 := by
-  have hn := apiCall_nextId w orc run b hal.2
-  have hev := apiCall_evs w orc run b
-  have hg : g4Step g (apiCall w orc run b).2 = (run (orcSt w orc)).2.2.2.foldl g4Ev g := by
-    unfold g4Step; rw [hev, fold4_filter]
-  refine ⟨?_, by rw [hev, fine_filter]; exact hfine, by rw [hn]; exact hnext, ?_⟩
-  · rw [hg]
-    have hcur' := hcur
-    rw [apiCall_cur] at hcur'
-    rw [apiCall_fst]
-    have hf : ∀ evs, apiFrz w evs = none := by intro evs; unfold apiFrz; rw [hal.2]
-    show Rot4 _ ((run (orcSt w orc)).2.2.2.foldl g4Ev g)
-    generalize run { w.st with fails := orc.fails, picks := orc.picks } = r at hri hcur' ⊢
-    obtain ⟨s1, ret, msg, evs⟩ := r
-    simp only at hri hcur' ⊢
-    have hmid : apiMid w s1 evs = { s1 with fails := [], picks := [] } := by unfold apiMid; rw [hf]
-    rw [hmid, hf]
-    have hri' : RI ({ s1 with fails := [], picks := [] } : State) (evs.foldl g4Ev g) := hri.congr rfl rfl
-    refine ⟨⟨by simp [hal.1], rfl⟩, hri'.advance 1, ?_⟩
-    intro h hc
-    have a5 := (advance_delta ({ s1 with fails := [], picks := [] } : State) 1).2.2.2.2.1
-    rw [obj_of_heap_eq a5]
-    exact hcur' h hc
-  · rw [hg, hn]
-    rcases hgc with h | ⟨X, n, h1, h2, h3, h4, rc, h5, h6⟩
-    · exact Or.inl h
-    · refine Or.inr ⟨X, n, h1, h2, h3, h4, rc, ?_, h6⟩
-      rw [hev]; exact List.mem_filter.2 ⟨h5, rfl⟩
+  have hn := apiCall_nextId w orc run b
+  have heff := apiCall_eff w orc run b
+  have hcr' : ∀ h, (apiCall w orc run b).1.cur = some h → (apiCall w orc run b).1.inReq = true := by
+    intro h hc; rw [apiCall_cur] at hc; rw [apiCall_inReq]; exact hcr h hc
+  cases hfz : apiFrz w (run (orcSt w orc)).2.2.2 with
+  | none =>
+    rw [hfz] at heff
+    have hg : g4Step g (apiCall w orc run b).2 = (run (orcSt w orc)).2.2.2.foldl g4Ev g := by
+      unfold g4Step; rw [heff, fold4_filter]
+    refine ⟨⟨?_, hcr', ?_⟩, by rw [heff, fine_filter]; exact hfine, by rw [hn]; exact hnext, by rw [hg, hn]; exact hgc⟩
+    · rw [hg, apiCall_fst]
+      show RI (advance (apiMid w _ _) 1).1 _
+      have hmid : apiMid w (run (orcSt w orc)).1 (run (orcSt w orc)).2.2.2 =
+          { (run (orcSt w orc)).1 with fails := [], picks := [] } := by unfold apiMid; rw [hfz]
+      rw [hmid]
+      exact (hri.congr (s' := { (run (orcSt w orc)).1 with fails := [], picks := [] }) rfl rfl).advance 1
+    · intro _ h hc
+      rw [apiCall_cur] at hc
+      rw [hg, apiCall_fst]
+      show lookup ((advance (apiMid w _ _) 1).1.obj h).id _ = none
+      rw [obj_of_heap_eq (advance_delta _ 1).2.2.2.2.1]
+      have hmid : apiMid w (run (orcSt w orc)).1 (run (orcSt w orc)).2.2.2 =
+          { (run (orcSt w orc)).1 with fails := [], picks := [] } := by unfold apiMid; rw [hfz]
+      rw [hmid]
+      exact hcur h hc
+  | some k =>
+    rw [hfz] at heff
+    have hfP : Fine g ((apiMuts (run (orcSt w orc)).2.2.2).take k) := fine_take (apiMuts_fine hfine) k
+    have hg : g4Step g (apiCall w orc run b).2 = ((apiMuts (run (orcSt w orc)).2.2.2).take k).foldl g4Ev g := by
+      unfold g4Step; rw [heff]
+    have hpre := fold4_prefix (g := g) (l := apiMuts (run (orcSt w orc)).2.2.2)
+      (by rw [apiMuts_fold]; exact ghostCase_length hgc) k
+    rw [apiMuts_fold] at hpre
+    have hmid : apiMid w (run (orcSt w orc)).1 (run (orcSt w orc)).2.2.2 =
+        { (run (orcSt w orc)).1 with fails := [], picks := [], store := ((apiMuts (run (orcSt w orc)).2.2.2).take k).foldl applyMut w.st.store, timers := [] } := by
+      unfold apiMid; rw [hfz]
+    have hrs : RS (((apiMuts (run (orcSt w orc)).2.2.2).take k).foldl applyMut w.st.store)
+        (((apiMuts (run (orcSt w orc)).2.2.2).take k).foldl g4Ev g) := hri0.rs.fold hfP
+    have hskip' : (apiCall w orc run b).1.skip = w.inReq := by
+      rw [apiCall_fst]; simp [hsk, hfz]
+    refine ⟨⟨?_, hcr', ?_⟩, by rw [heff]; exact hfP, by rw [hn]; exact hnext, ?_⟩
+    · rw [hg, apiCall_fst]
+      show RI (advance (apiMid w _ _) 1).1 _
+      rw [hmid]
+      apply RI.advance
+      rcases hpre with e | e
+      · rw [e] at hrs ⊢
+        exact hri0.of_rs (s' := { (run (orcSt w orc)).1 with fails := [], picks := [], store := ((apiMuts (run (orcSt w orc)).2.2.2).take k).foldl applyMut w.st.store, timers := [] }) hrs hnext
+      · rw [e] at hrs ⊢
+        exact hri.of_rs (s' := { (run (orcSt w orc)).1 with fails := [], picks := [], store := ((apiMuts (run (orcSt w orc)).2.2.2).take k).foldl applyMut w.st.store, timers := [] }) hrs
+            (Nat.le_refl _)
+    · intro hs h hc
+      rw [hskip'] at hs
+      rw [apiCall_cur] at hc
+      have := hcr h hc
+      rw [hs] at this; cases this
+    · rw [hg, hn]
+      rcases hpre with e | e
+      · exact Or.inl e
+      · rw [e]; exact hgc
 
-/-- **every operation of a fault-free history without `crashinside` keeps the C04 invariant**, the ghost being
-updated from the persistence events the operation showed (`g4Step`); the events respect the ghost; and the ghost
-changes at most by one replacement `X ⟶ gen n` with `n` minted during this operation. -/
+theorem step_skip_out4 (le : ID → ID → Bool) (w : World) (orc : Orc) (op : Op) (hsk : w.skip = true)
+    (hne : op ≠ .endReq) : (w.step le orc op).2 = { silent := true } := by
+  unfold World.step
+  cases op <;> first | exact absurd rfl hne | simp only [hsk, Bool.true_and, Bool.not_false, if_true]
+
+/-- **every operation of a fault-free history keeps the C04 invariant** — `crashinside` included —, the ghost being
+updated from the persistence events of the operation that took effect (`g4Step`); these events respect the ghost; and
+the ghost changes at most by one replacement `X ⟶ gen n` with `n` minted during this operation. -/
 theorem rot4_step {c : Codec} (le : ID → ID → Bool) (w : World) (orc : Orc) (op : Op) (hw : WInv3 c w) {g : G4}
-    (hd : Rot4 w g) (ho : OrcOK orc) (hopk : OpOK le w op) (h4 : Op4OK op) :
+    (hd : Rot4 w g) (ho : OrcOK orc) (hopk : OpOK le w op) :
     Step4 w g (w.step le orc op).1 (w.step le orc op).2 := by
-  have hsk' : w.skip = false := hd.alive.1
+  by_cases hsk : w.skip = true
+  · by_cases he : op = .endReq
+    · subst he
+      unfold World.step
+      simp only [Bool.not_true, Bool.and_false, Bool.false_eq_true, if_false]
+      exact step4_plain rfl ⟨hd.ri, by intro h hc; simp at hc, by intro _ h hc; simp at hc⟩ (Nat.le_refl _)
+    · have h1 := step_skip le w orc op hsk he
+      have h2 := step_skip_out4 le w orc op hsk he
+      rw [h1, h2]
+      exact ⟨hd, trivial, Nat.le_refl _, Or.inl rfl⟩
+  have hsk' : w.skip = false := by simpa using hsk
   obtain ⟨hinv, hcur⟩ := hw.inv.good hsk'
   obtain ⟨hi3, hcref⟩ := hw.w3.good hsk'
   have hcd := hw.inv.codec
@@ -171,7 +267,7 @@ theorem rot4_step {c : Codec} (le : ID → ID → Bool) (w : World) (orc : Orc) 
   have hcur0 : ∀ h, w.cur = some h → HOK (orcSt w orc) h := fun h hh => (hcur h hh).congr rfl rfl rfl
   have hri0 : RI (orcSt w orc) g := hd.ri.congr rfl rfl
   have hcref0 : ∀ h, w.cur = some h → ((orcSt w orc).obj h).ref = none := hcref
-  have hrep0 : ∀ h, w.cur = some h → lookup ((orcSt w orc).obj h).id g.repl = none := hd.cur
+  have hrep0 : ∀ h, w.cur = some h → lookup ((orcSt w orc).obj h).id g.repl = none := hd.cur hsk'
   -- a quiet API call that keeps the ids of the objects
   have quiet : ∀ (run : State → State × RetV × Option String × List Ev) (b : Bool),
       RQ (FullX g) (orcSt w orc) (run (orcSt w orc)).1 (run (orcSt w orc)).2.2.2 →
@@ -180,20 +276,21 @@ theorem rot4_step {c : Codec} (le : ID → ID → Bool) (w : World) (orc : Orc) 
       Step4 w g (apiCall w orc run b).1 (apiCall w orc run b).2 := by
     intro run b hq hn hid
     obtain ⟨h1, h2, h3⟩ := hri0.rq hq (fun _ _ hx => hx) hn
-    refine api4 w orc run b hd.alive (by rw [h3]; exact h1) ?_ h2 hn (Or.inl h3)
+    refine api4 w orc run b hsk' hd.ri hd.cur_req (by rw [h3]; exact h1) ?_ h2 hn (Or.inl h3)
     intro h hc
-    rw [apiCall_cur] at hc
     rw [h3, hid h hc]; exact hrep0 h hc
   unfold World.step
   cases op with
   | codec c' => exact absurd hopk (by simp [OpOK])
-  | crashinside k => exact absurd h4 (by simp [Op4OK])
+  | crashinside k =>
+    simp only [hsk', Bool.false_and, Bool.false_eq_true, if_false]
+    exact step4_plain rfl ⟨hd.ri, hd.cur_req, fun _ => hd.cur hsk'⟩ (Nat.le_refl _)
   | cfg n v =>
     simp only [hsk', Bool.false_and, Bool.false_eq_true, if_false]
-    exact step4_plain rfl ⟨⟨rfl, hd.alive.2⟩, hd.ri, hd.cur⟩ (Nat.le_refl _)
+    exact step4_plain rfl ⟨hd.ri, hd.cur_req, fun _ => hd.cur hsk'⟩ (Nat.le_refl _)
   | cookiecfg ck =>
     simp only [hsk', Bool.false_and, Bool.false_eq_true, if_false]
-    exact step4_plain rfl ⟨⟨rfl, hd.alive.2⟩, hd.ri, hd.cur⟩ (Nat.le_refl _)
+    exact step4_plain rfl ⟨hd.ri, hd.cur_req, fun _ => hd.cur hsk'⟩ (Nat.le_refl _)
   | fault =>
     simp only [hsk', Bool.false_and, Bool.false_eq_true, if_false]
     exact step4_plain rfl hd (Nat.le_refl _)
@@ -202,23 +299,23 @@ theorem rot4_step {c : Codec} (le : ID → ID → Bool) (w : World) (orc : Orc) 
     exact step4_plain rfl hd (Nat.le_refl _)
   | crash =>
     simp only [hsk', Bool.false_and, Bool.false_eq_true, if_false]
-    exact step4_plain rfl ⟨⟨rfl, hd.alive.2⟩, hd.ri, hd.cur⟩ (Nat.le_refl _)
+    exact step4_plain rfl ⟨hd.ri, hd.cur_req, fun _ => hd.cur hsk'⟩ (Nat.le_refl _)
   | stale uid id =>
     simp only [hsk', Bool.false_and, Bool.false_eq_true, if_false]
-    exact step4_plain rfl ⟨⟨rfl, hd.alive.2⟩, hd.ri.congr rfl rfl, hd.cur⟩ (Nat.le_refl _)
+    exact step4_plain rfl ⟨hd.ri.congr rfl rfl, hd.cur_req, fun _ => hd.cur hsk'⟩ (Nat.le_refl _)
   | dropcache =>
     simp only [hsk', Bool.false_and, Bool.false_eq_true, if_false]
-    exact step4_plain rfl ⟨⟨rfl, hd.alive.2⟩, hd.ri.congr rfl rfl, hd.cur⟩ (Nat.le_refl _)
+    exact step4_plain rfl ⟨hd.ri.congr rfl rfl, hd.cur_req, fun _ => hd.cur hsk'⟩ (Nat.le_refl _)
   | wait d =>
     simp only [hsk', Bool.false_and, Bool.false_eq_true, if_false]
     have a := advance_delta w.st d
-    refine step4_plain rfl ⟨⟨rfl, hd.alive.2⟩, hd.ri.advance d, ?_⟩ (by rw [a.2.2.2.2.2.1]; exact Nat.le_refl _)
-    intro h hc
+    refine step4_plain rfl ⟨hd.ri.advance d, hd.cur_req, ?_⟩ (by rw [a.2.2.2.2.2.1]; exact Nat.le_refl _)
+    intro _ h hc
     show lookup ((advance w.st d).1.obj h).id g.repl = none
-    rw [obj_of_heap_eq a.2.2.2.2.1]; exact hd.cur h hc
+    rw [obj_of_heap_eq a.2.2.2.2.1]; exact hd.cur hsk' h hc
   | endReq =>
     simp only [hsk', Bool.false_and, Bool.false_eq_true, if_false]
-    exact step4_plain rfl ⟨⟨rfl, hd.alive.2⟩, hd.ri, by intro h hc; simp at hc⟩ (Nat.le_refl _)
+    exact step4_plain rfl ⟨hd.ri, by intro h hc; simp at hc, by intro _ h hc; simp at hc⟩ (Nat.le_refl _)
   | purge =>
     simp only [hsk', Bool.false_and, Bool.false_eq_true, if_false]
     refine step4_finish (quiet _ false ?_ ?_ ?_)
@@ -245,9 +342,8 @@ theorem rot4_step {c : Codec} (le : ID → ID → Bool) (w : World) (orc : Orc) 
     generalize ({ cookie := _, cookieLen := _, ip := ip, ua := ua, create := create } : Req) = r
     have hS := start_g4 w.cfg (orcSt w orc) r hnf0 hinv0 hri0
     have hstep := (start_spec w.cfg (orcSt w orc) r hnf0 hinv0).mono.next
-    refine step4_st (step4_input _ (api4 _ orc _ true (g := g) ⟨rfl, hd.alive.2⟩ hS.ri ?_ hS.fine hstep ?_)) rfl
+    refine step4_st (step4_input _ (api4 _ orc _ true (g := g) rfl hd.ri (fun _ _ => rfl) hS.ri ?_ hS.fine hstep ?_)) rfl
     · intro h hh
-      rw [apiCall_cur] at hh
       apply hS.cur h
       simp only at hh
       split at hh
@@ -255,15 +351,15 @@ theorem rot4_step {c : Codec} (le : ID → ID → Bool) (w : World) (orc : Orc) 
         simp only [Option.some.injEq] at hh
         rw [← hh]; exact hres
       · simp at hh
-    · rcases hS.cases with ⟨_, e⟩ | ⟨_, e, _⟩ | ⟨X, h, _, _, e1, e2, e3, _, _, e4, _⟩
+    · rcases hS.cases with ⟨_, e⟩ | ⟨_, e, _⟩ | ⟨X, h, _, _, e1, e2, e3, _, _, _, _⟩
       · exact Or.inl e
       · exact Or.inl e
-      · exact Or.inr ⟨X, (orcSt w orc).nextId, Nat.le_refl _, by rw [e1]; exact Nat.lt_succ_self _, e2, e3, e4⟩
+      · exact Or.inr ⟨X, (orcSt w orc).nextId, Nat.le_refl _, by rw [e1]; exact Nat.lt_succ_self _, e2, e3⟩
   | h hop =>
     simp only [hsk', Bool.false_and, Bool.false_eq_true, if_false]
     cases hc : w.cur with
     | none =>
-      exact ⟨⟨hd.alive, hd.ri, hd.cur⟩, trivial, Nat.le_refl _, Or.inl rfl⟩
+      exact ⟨hd, trivial, Nat.le_refl _, Or.inl rfl⟩
     | some h =>
       simp only []
       have hk0 := hcur0 h hc
@@ -294,13 +390,12 @@ theorem rot4_step {c : Codec} (le : ID → ID → Bool) (w : World) (orc : Orc) 
       | lastaccess => exact quiet _ true (RQ.refl _ _) (Nat.le_refl _) (fun _ _ => rfl)
       | user => exact quiet _ true (RQ.refl _ _) (Nat.le_refl _) (fun _ _ => rfl)
       | destroy =>
-        refine api4 w orc _ true hd.alive ?_ ?_ ?_ ?_ ?_
+        refine api4 w orc _ true hsk' hd.ri hd.cur_req ?_ ?_ ?_ ?_ ?_
         all_goals (show _; dsimp only []; rw [destroy_nf _ h _ hnf0])
         · have : (if w.hasCookie = true then [Ev.del ((orcSt w orc).obj h).id, Ev.delCookie]
               else [Ev.del ((orcSt w orc).obj h).id]).foldl g4Ev g = g := by cases w.hasCookie <;> rfl
           rw [this]; exact delSt_g4 hri0 _
         · intro h' hh'
-          rw [apiCall_cur] at hh'
           have : (if w.hasCookie = true then [Ev.del ((orcSt w orc).obj h).id, Ev.delCookie]
               else [Ev.del ((orcSt w orc).obj h).id]).foldl g4Ev g = g := by cases w.hasCookie <;> rfl
           rw [this, hsame h' hh']
@@ -311,33 +406,30 @@ theorem rot4_step {c : Codec} (le : ID → ID → Bool) (w : World) (orc : Orc) 
       | regen =>
         obtain ⟨r1, r2, r3, r4⟩ := regenerate_g4 w.cfg (orcSt w orc) h hnf0 hinv0 hk0 hri0 hr0 hp0
         have d := regenerate_delta w.cfg (orcSt w orc) h hnf0 hinv0 hk0
-        refine api4 w orc _ true hd.alive ?_ ?_ ?_ ?_ ?_
+        refine api4 w orc _ true hsk' hd.ri hd.cur_req ?_ ?_ ?_ ?_ ?_
         all_goals (show _; dsimp only [])
         · rw [r3]; exact r1
         · intro h' hh'
-          rw [apiCall_cur] at hh'
           rw [r3, hsame h' hh', d.obj_h]
           show lookup (ID.gen (orcSt w orc).nextId) _ = none
           rw [link_repl_ne g _ d.ne]
           exact hri0.fresh_repl (Nat.le_refl _)
         · exact r2
         · rw [d.fr.2.1]; exact Nat.le_succ _
-        · exact Or.inr ⟨_, (orcSt w orc).nextId, Nat.le_refl _, by rw [d.fr.2.1]; exact Nat.lt_succ_self _, hp0, r3,
-            _, r4, by rw [enc_ref]; rfl⟩
+        · exact Or.inr ⟨_, (orcSt w orc).nextId, Nat.le_refl _, by rw [d.fr.2.1]; exact Nat.lt_succ_self _, hp0, r3⟩
       | login uid excl =>
         obtain ⟨l1, n, l2, l3, l4, l5, l6, l7⟩ := hlogin_g4 w.cfg le (orcSt w orc) h uid excl hnf0 hinv0 hk0 hri0 hr0 hp0
-        refine api4 w orc _ true hd.alive ?_ ?_ ?_ ?_ ?_
+        refine api4 w orc _ true hsk' hd.ri hd.cur_req ?_ ?_ ?_ ?_ ?_
         all_goals (show _; dsimp only [])
         · rw [l4]; exact l5
         · intro h' hh'
-          rw [apiCall_cur] at hh'
           have hne : ((orcSt w orc).obj h).id ≠ .gen n := (hk0.minted.mono l2).ne_gen
           rw [l4, hsame h' hh', l6, link_repl_ne g _ hne]
           exact hri0.fresh_repl l2
         · exact l1
         · have : (orcSt w orc).nextId = w.st.nextId := rfl
           omega
-        · exact Or.inr ⟨_, n, l2, l3, hp0, l4, l7⟩
+        · exact Or.inr ⟨_, n, l2, l3, hp0, l4⟩
 
 /-! ## 2. histories -/
 
@@ -346,10 +438,11 @@ def runG4 (le : ID → ID → Bool) (w : World) (g : G4) : List (Orc × Op) → 
   | [] => (w, g)
   | (o, op) :: r => runG4 le (w.step le o op).1 (g4Step g (w.step le o op).2) r
 
-/-- **the trace of a history**: the persistence events its operations show (`Out.evs`), in order. -/
+/-- **the trace of a history**: the persistence events of its operations that took effect (`effEvs`: what the
+operations show, `Out.evs`, cut at the crash point when the process died inside an operation), in order. -/
 def traceOf (le : ID → ID → Bool) (w : World) : List (Orc × Op) → List Ev
   | [] => []
-  | (o, op) :: r => (w.step le o op).2.evs ++ traceOf le (w.step le o op).1 r
+  | (o, op) :: r => effEvs (w.step le o op).2 ++ traceOf le (w.step le o op).1 r
 
 theorem runG4_fst (le : ID → ID → Bool) (w : World) (g : G4) (hist : List (Orc × Op)) :
     (runG4 le w g hist).1 = runHist le w hist := by
@@ -379,20 +472,14 @@ theorem traceOf_append (le : ID → ID → Bool) (w : World) (a b : List (Orc ×
   | nil => rfl
   | cons p r ih => obtain ⟨o, op⟩ := p; simp only [List.cons_append, traceOf, runHist, ih, List.append_assoc]
 
-/-- **the side conditions of C04**: those of the coherence invariant (`HistOK`: fault-free oracles, no codec switch,
-`SoleObject` for user-wide calls during a request) and no `crashinside` (`Op4OK`). Everything else is arbitrary:
-presented ids (`.val X 24` included), configuration, time, purges, cache drops, crashes between operations, handler
-calls after `Destroy`. -/
-def Hist4OK (le : ID → ID → Bool) (w : World) (hist : List (Orc × Op)) : Prop :=
-  HistOK le w hist ∧ ∀ p ∈ hist, Op4OK p.2
-
-theorem Hist4OK.take {le : ID → ID → Bool} {w : World} {hist : List (Orc × Op)} (h : Hist4OK le w hist) (n : Nat) :
-    Hist4OK le w (hist.take n) := ⟨h.1.take n, fun p hp => h.2 p (List.mem_of_mem_take hp)⟩
+/-- **the side conditions of C04** are those of the coherence invariant and nothing else (`HistOK`: fault-free oracles,
+no codec switch, `SoleObject` for user-wide calls during a request). Everything else is arbitrary: presented ids
+(`.val X 24` included), configuration, time, purges, cache drops, crashes between operations **and inside operations**
+(`crashinside`), handler calls after `Destroy`. -/
+abbrev Hist4OK (le : ID → ID → Bool) (w : World) (hist : List (Orc × Op)) : Prop := HistOK le w hist
 
 theorem Hist4OK.cons {le : ID → ID → Bool} {w : World} {o : Orc} {op : Op} {r : List (Orc × Op)}
-    (h : Hist4OK le w ((o, op) :: r)) :
-    OrcOK o ∧ OpOK le w op ∧ Op4OK op ∧ Hist4OK le (w.step le o op).1 r :=
-  ⟨h.1.1, h.1.2.1, h.2 (o, op) List.mem_cons_self, h.1.2.2, fun p hp => h.2 p (List.mem_cons_of_mem _ hp)⟩
+    (h : Hist4OK le w ((o, op) :: r)) : OrcOK o ∧ OpOK le w op ∧ Hist4OK le (w.step le o op).1 r := h
 
 /-- what a history guarantees, from any world satisfying the invariants. -/
 theorem rot4_hist {c : Codec} (le : ID → ID → Bool) (hist : List (Orc × Op)) (w : World) (g : G4) (hw : WInv3 c w)
@@ -403,16 +490,16 @@ theorem rot4_hist {c : Codec} (le : ID → ID → Bool) (hist : List (Orc × Op)
   | nil => exact ⟨hw, hd, trivial, Nat.le_refl _⟩
   | cons p r ih =>
     obtain ⟨o, op⟩ := p
-    obtain ⟨h1, h2, h3, h4⟩ := hok.cons
-    have st := rot4_step le w o op hw hd h1 h2 h3
+    obtain ⟨h1, h2, h4⟩ := hok.cons
+    have st := rot4_step le w o op hw hd h1 h2
     obtain ⟨i1, i2, i3, i4⟩ := ih _ _ (step_inv3 le w o op hw h1 h2) st.rot h4
     refine ⟨i1, i2, ?_, Nat.le_trans st.next i4⟩
-    show Fine g ((w.step le o op).2.evs ++ _)
+    show Fine g (effEvs (w.step le o op).2 ++ _)
     rw [fine_append]
     exact ⟨st.fine, i3⟩
 
 theorem rot4_init (cfg : Cfg) (ck : CookieCfg) : Rot4 { cfg := cfg, ck := ck } {} :=
-  ⟨⟨rfl, rfl⟩, ri_init, by intro h hh; simp at hh⟩
+  ⟨ri_init, by intro h hh; simp at hh, by intro _ h hh; simp at hh⟩
 
 /-- **C04, the invariant at the end of every history** (hence at every boundary: `Hist4OK.take`): from the empty world
 with any configuration, after every history satisfying `Hist4OK`, the coherence invariants and `Rot4` hold for the
@@ -479,7 +566,7 @@ theorem c04_replaced_not_minted (le : ID → ID → Bool) (cfg : Cfg) (ck : Cook
     have := h2.ri.full X (by rw [refAt_of_lookup hl, hr])
     rw [this] at h; cases h
   | some t =>
-    have := (h2.ri.ref X t (by rw [refAt_of_lookup hl, hr])).1
+    have := h2.ri.ref X t (by rw [refAt_of_lookup hl, hr])
     rw [this] at h; exact h
 
 /-! ## 4. part 2 — one mint per due id -/
@@ -495,8 +582,10 @@ theorem startRun_proj (cfg : Cfg) (r : Req) (s : State) :
 /-- **a request step seen through `Start`**: what `World.step` shows for `.req …` in terms of the run of `Start` on the
 state with the oracles installed, together with `StartG4` for that run. -/
 theorem req4_view {c : Codec} (le : ID → ID → Bool) (w : World) (orc : Orc) (client : String) (spec : CookieSpec)
-    (ip ua : String) (create : Bool) (hw : WInv3 c w) {g : G4} (hd : Rot4 w g) (ho : OrcOK orc) :
+    (ip ua : String) (create : Bool) (hw : WInv3 c w) {g : G4} (hd : Rot4 w g) (ho : OrcOK orc) (hsk : w.skip = false)
+    (hfz : w.freezeAt = none) :
     StartG4 (orcSt w orc) (reqOf1 w client spec ip ua create) g (start w.cfg (orcSt w orc) (reqOf1 w client spec ip ua create)) ∧
+    effEvs (w.step le orc (.req client spec ip ua create)).2 = (w.step le orc (.req client spec ip ua create)).2.evs ∧
     (w.step le orc (.req client spec ip ua create)).2.evs =
       (start w.cfg (orcSt w orc) (reqOf1 w client spec ip ua create)).2.2.filter (fun e => !isCookie e) ∧
     (w.step le orc (.req client spec ip ua create)).2.cookies =
@@ -510,8 +599,8 @@ theorem req4_view {c : Codec} (le : ID → ID → Bool) (w : World) (orc : Orc) 
     (w.step le orc (.req client spec ip ua create)).1.st.nextId =
       (start w.cfg (orcSt w orc) (reqOf1 w client spec ip ua create)).1.nextId ∧
     (∀ h, (w.step le orc (.req client spec ip ua create)).1.st.obj h =
-      (start w.cfg (orcSt w orc) (reqOf1 w client spec ip ua create)).1.obj h) := by
-  have hsk := hd.alive.1
+      (start w.cfg (orcSt w orc) (reqOf1 w client spec ip ua create)).1.obj h) ∧
+    (w.step le orc (.req client spec ip ua create)).1.skip = false := by
   obtain ⟨hinv, _⟩ := hw.inv.good hsk
   have hcd := hw.inv.codec
   subst hcd
@@ -521,13 +610,25 @@ theorem req4_view {c : Codec} (le : ID → ID → Bool) (w : World) (orc : Orc) 
   refine ⟨hS, ?_⟩
   rw [step_req le w orc client spec ip ua create hsk]
   generalize reqOf1 w client spec ip ua create = r
-  have hfr : (reqWorld w orc client (presOf w client spec).isSome r).freezeAt = none := hd.alive.2
+  have hfr : (reqWorld w orc client (presOf w client spec).isSome r).freezeAt = none := hfz
   have hpr := startRun_proj w.cfg r (orcSt w orc)
   have hout := apiCall_out (reqWorld w orc client (presOf w client spec).isSome r) orc (startRun w.cfg r) true
   have hev := apiCall_evs (reqWorld w orc client (presOf w client spec).isSome r) orc (startRun w.cfg r) true
   have ho1 : orcSt (reqWorld w orc client (presOf w client spec).isSome r) orc = orcSt w orc := rfl
   rw [ho1] at hout hev
-  refine ⟨?_, ?_, ?_, ?_, ?_, ?_, ?_⟩
+  have hfrz : apiFrz (reqWorld w orc client (presOf w client spec).isSome r) (startRun w.cfg r (orcSt w orc)).2.2.2 = none := by
+    unfold apiFrz; rw [hfr]
+  have heff : effEvs (apiCall (reqWorld w orc client (presOf w client spec).isSome r) orc (startRun w.cfg r) true).2 =
+      (apiCall (reqWorld w orc client (presOf w client spec).isSome r) orc (startRun w.cfg r) true).2.evs := by
+    rw [apiCall_eff, hev, ho1, hfrz]
+  refine ⟨heff, ?_, ?_, ?_, ?_, ?_, ?_, ?_, ?_⟩
+  rotate_left 7
+  · rw [apiCall_fst]
+    show ((reqWorld w orc client (presOf w client spec).isSome r).skip ||
+      ((apiFrz (reqWorld w orc client (presOf w client spec).isSome r) (startRun w.cfg r (orcSt w orc)).2.2.2).isSome &&
+        (reqWorld w orc client (presOf w client spec).isSome r).inReq)) = false
+    rw [hfrz]
+    simp [reqWorld, hsk]
   · show (apiCall _ orc (startRun w.cfg r) true).2.evs = _
     rw [hev, hpr.2.2]
   · show (apiCall _ orc (startRun w.cfg r) true).2.cookies = _
@@ -535,9 +636,9 @@ theorem req4_view {c : Codec} (le : ID → ID → Bool) (w : World) (orc : Orc) 
   · show (apiCall _ orc (startRun w.cfg r) true).2.ret = _
     rw [hout.1, hpr.2.1]
   · rw [apiCall_cur]; rfl
-  · show (apiCall _ orc (startRun w.cfg r) true).2.evs.foldl g4Ev g = _
-    rw [hev, fold4_filter, hpr.2.2]
-  · rw [apiCall_nextId _ orc _ true hfr, ho1, hpr.1]
+  · show (effEvs (apiCall _ orc (startRun w.cfg r) true).2).foldl g4Ev g = _
+    rw [heff, hev, fold4_filter, hpr.2.2]
+  · rw [apiCall_nextId _ orc _ true, ho1, hpr.1]
   · intro h
     rw [apiCall_obj_nf _ orc _ true hfr h, ho1, hpr.1]
 
@@ -547,14 +648,15 @@ theorem reqOf1_pres {w : World} {client : String} {spec : CookieSpec} {X : ID} (
   simp [reqOf1, hp]
 
 /-- **C04 (2), the request level: what a request presenting `X` can do to the id counter.** Fault-free, at a boundary
-satisfying the invariants, a request presenting `X` (jar = `X`, or `.val X 24`) either (N) mints nothing; or (C) is
+satisfying the invariants, with the process alive and no crash point armed, a request presenting `X` (jar = `X`, or
+`.val X 24`) either (N) mints nothing; or (C) is
 answered with the deletion cookie (`X` was refused or unknown, and if anything was minted it is the id of a brand-new
 session); or (R) **rotates `X`**: `X` had not been replaced before, exactly one id is minted, the reference record
 `X ⟶ gen nextId` is among the events shown, the request returns the session — now under the id just minted — and the
 response carries no deletion cookie. -/
 theorem c04_req_mints {c : Codec} (le : ID → ID → Bool) (w : World) (orc : Orc) (client : String) (spec : CookieSpec)
-    (ip ua : String) (create : Bool) (hw : WInv3 c w) {g : G4} (hd : Rot4 w g) (ho : OrcOK orc) {X : ID}
-    (hp : presOf w client spec = some (X, 24)) :
+    (ip ua : String) (create : Bool) (hw : WInv3 c w) {g : G4} (hd : Rot4 w g) (ho : OrcOK orc) (hsk : w.skip = false)
+    (hfz : w.freezeAt = none) {X : ID} (hp : presOf w client spec = some (X, 24)) :
     (w.step le orc (.req client spec ip ua create)).1.st.nextId = w.st.nextId ∨
     Ev.delCookie ∈ (w.step le orc (.req client spec ip ua create)).2.cookies ∨
     (lookup X g.repl = none ∧ (w.step le orc (.req client spec ip ua create)).1.st.nextId = w.st.nextId + 1 ∧
@@ -563,7 +665,7 @@ theorem c04_req_mints {c : Codec} (le : ID → ID → Bool) (w : World) (orc : O
       Ev.delCookie ∉ (w.step le orc (.req client spec ip ua create)).2.cookies ∧
       ∃ h, (w.step le orc (.req client spec ip ua create)).1.cur = some h ∧
         ((w.step le orc (.req client spec ip ua create)).1.st.obj h).id = .gen w.st.nextId) := by
-  obtain ⟨hS, v1, v2, v3, v4, _, v6, v7⟩ := req4_view le w orc client spec ip ua create hw hd ho
+  obtain ⟨hS, _, v1, v2, v3, v4, _, v6, v7, _⟩ := req4_view le w orc client spec ip ua create hw hd ho hsk hfz
   obtain ⟨hc1, hc2⟩ := reqOf1_pres ip ua create hp
   rw [v6, v2, v1, v3, v4]
   rcases hS.cases with ⟨e, _⟩ | ⟨_, _, e, _⟩ | ⟨X', h, e1, _, e3, e4, _, e6, e7, ⟨rc, e8, e9⟩, e10⟩
@@ -590,16 +692,6 @@ theorem histOK_append {le : ID → ID → Bool} {w : World} {a b : List (Orc × 
     · rintro ⟨h1, h2, h3, h4⟩; exact ⟨⟨h1, h2, h3⟩, h4⟩
     · rintro ⟨⟨h1, h2, h3⟩, h4⟩; exact ⟨h1, h2, h3, h4⟩
 
-theorem hist4OK_append {le : ID → ID → Bool} {w : World} {a b : List (Orc × Op)} :
-    Hist4OK le w (a ++ b) ↔ Hist4OK le w a ∧ Hist4OK le (runHist le w a) b := by
-  unfold Hist4OK
-  rw [histOK_append]
-  constructor
-  · rintro ⟨⟨h1, h2⟩, h3⟩
-    exact ⟨⟨h1, fun p hp => h3 p (List.mem_append_left _ hp)⟩, h2, fun p hp => h3 p (List.mem_append_right _ hp)⟩
-  · rintro ⟨⟨h1, h3⟩, h2, h4⟩
-    exact ⟨⟨h1, h2⟩, fun p hp => (List.mem_append.1 hp).elim (h3 p) (h4 p)⟩
-
 /-- **any boundary of a history**: the invariants hold there, and the rest of the history is a history from there. -/
 theorem hist4_split (le : ID → ID → Bool) (cfg : Cfg) (ck : CookieCfg) (hist : List (Orc × Op))
     (hok : Hist4OK le { cfg := cfg, ck := ck } hist) (k : Nat) :
@@ -609,10 +701,10 @@ theorem hist4_split (le : ID → ID → Bool) (cfg : Cfg) (ck : CookieCfg) (hist
     runG4 le { cfg := cfg, ck := ck } {} hist =
       runG4 le (runG4 le { cfg := cfg, ck := ck } {} (hist.take k)).1
         (runG4 le { cfg := cfg, ck := ck } {} (hist.take k)).2 (hist.drop k) := by
-  obtain ⟨h1, h2, _⟩ := rot4_all_histories le cfg ck _ (hok.take k)
+  obtain ⟨h1, h2, _⟩ := rot4_all_histories le cfg ck _ (HistOK.take hok k)
   refine ⟨h1, h2, ?_, ?_⟩
-  · have := hok
-    rw [← List.take_append_drop k hist, hist4OK_append] at this
+  · have : HistOK le { cfg := cfg, ck := ck } hist := hok
+    rw [← List.take_append_drop k hist, histOK_append] at this
     rw [runG4_fst]; exact this.2
   · rw [← runG4_append, List.take_append_drop]
 
@@ -630,21 +722,20 @@ theorem rot4_later {c : Codec} (le : ID → ID → Bool) (hist : List (Orc × Op
     | nil => intro y _; rfl
     | cons p r ih =>
       obtain ⟨o, op⟩ := p
-      obtain ⟨h1, h2, h3, h4⟩ := hok.cons
-      have st := rot4_step le w o op hw hd h1 h2 h3
+      obtain ⟨h1, h2, h4⟩ := hok.cons
+      have st := rot4_step le w o op hw hd h1 h2
       intro y hy
       have := ih _ _ (step_inv3 le w o op hw h1 h2) st.rot h4 y (hy.mono st.next)
       show (runG4 le (w.step le o op).1 (g4Step g (w.step le o op).2) r).2.rootOf y = _
       rw [this]
-      rcases st.ghost with e | ⟨X, n, hn, _, _, e, _⟩
+      rcases st.ghost with e | ⟨X, n, hn, _, _, e⟩
       · rw [e]
       · rw [e, rootOf_link4, if_neg]
         intro e'
         exact (hy.mono hn).ne_gen e'.symm
 
 theorem histOK_at {le : ID → ID → Bool} {w : World} {hist : List (Orc × Op)} (h : Hist4OK le w hist) {k : Nat} {o : Orc} {op : Op}
-    (hk : hist[k]? = some (o, op)) :
-    OrcOK o ∧ OpOK le (runHist le w (hist.take k)) op ∧ Op4OK op := by
+    (hk : hist[k]? = some (o, op)) : OrcOK o ∧ OpOK le (runHist le w (hist.take k)) op := by
   induction hist generalizing w k with
   | nil => simp at hk
   | cons p r ih =>
@@ -652,11 +743,11 @@ theorem histOK_at {le : ID → ID → Bool} {w : World} {hist : List (Orc × Op)
     | zero =>
       simp only [List.getElem?_cons_zero, Option.some.injEq] at hk
       subst hk
-      exact ⟨h.cons.1, h.cons.2.1, h.cons.2.2.1⟩
+      exact ⟨h.cons.1, h.cons.2.1⟩
     | succ k =>
       obtain ⟨o', op'⟩ := p
       simp only [List.getElem?_cons_succ] at hk
-      exact ih h.cons.2.2.2 hk
+      exact ih h.cons.2.2 hk
 
 /-- **one step inside a history**: the invariants before it, what the step guarantees, and the run up to the next
 boundary. -/
@@ -672,10 +763,10 @@ theorem hist4_at (le : ID → ID → Bool) (cfg : Cfg) (ck : CookieCfg) (hist : 
       (((runG4 le { cfg := cfg, ck := ck } {} (hist.take k)).1.step le o op).1,
        g4Step (runG4 le { cfg := cfg, ck := ck } {} (hist.take k)).2
          ((runG4 le { cfg := cfg, ck := ck } {} (hist.take k)).1.step le o op).2) := by
-  obtain ⟨h1, h2, _⟩ := rot4_all_histories le cfg ck _ (hok.take k)
-  obtain ⟨a1, a2, a3⟩ := histOK_at hok hk
+  obtain ⟨h1, h2, _⟩ := rot4_all_histories le cfg ck _ (HistOK.take hok k)
+  obtain ⟨a1, a2⟩ := histOK_at hok hk
   rw [← runG4_fst le _ {}] at a2
-  refine ⟨h1, h2, a1, rot4_step le _ o op h1 h2 a1 a2 a3, ?_⟩
+  refine ⟨h1, h2, a1, rot4_step le _ o op h1 h2 a1 a2, ?_⟩
   rw [List.take_add_one, hk, runG4_append]
   rfl
 
@@ -691,11 +782,11 @@ theorem fine_mem_replaced {g : G4} {evs : List Ev} (hf : Fine g evs) {X t : ID} 
   obtain ⟨i, hi⟩ := List.mem_iff_getElem?.1 hm
   exact fine_replaced hf hl hi
 
-/-- **step `k` of the history mints an id for `X` by rotation**: it shows the save of a reference record under `X`
-whose target is an id that was not minted before this step. -/
+/-- **step `k` of the history mints an id for `X` by rotation**: it carries out the save of a reference record under
+`X` whose target is an id that was not minted before this step. -/
 def RotatesAt (le : ID → ID → Bool) (w0 : World) (hist : List (Orc × Op)) (k : Nat) (X : ID) : Prop :=
   ∃ o op rc n, hist[k]? = some (o, op) ∧
-    Ev.save X rc ∈ ((runG4 le w0 {} (hist.take k)).1.step le o op).2.evs ∧ rc.ref = some (.gen n) ∧
+    Ev.save X rc ∈ effEvs ((runG4 le w0 {} (hist.take k)).1.step le o op).2 ∧ rc.ref = some (.gen n) ∧
     (runG4 le w0 {} (hist.take k)).1.st.nextId ≤ n
 
 /-- **C04 (2), `c04_one_mint_per_due_id`.** In every fault-free history without `crashinside`, for every id `X`, at
@@ -717,7 +808,7 @@ theorem c04_one_mint_per_due_id (le : ID → ID → Bool) (cfg : Cfg) (ck : Cook
     rw [hrun]
     cases e; exact hm
   -- from the boundary k+1 to the boundary k'
-  have hsp := hist4_split le cfg ck (hist.take k') (hok.take k') (k + 1)
+  have hsp := hist4_split le cfg ck (hist.take k') (HistOK.take hok k') (k + 1)
   rw [List.take_take, Nat.min_eq_left (by omega : k + 1 ≤ k')] at hsp
   obtain ⟨s1, s2, s3, s4⟩ := hsp
   obtain ⟨l1, l2, _⟩ := rot4_later le _ _ _ s1 s2 s3
@@ -728,9 +819,11 @@ theorem c04_one_mint_per_due_id (le : ID → ID → Bool) (cfg : Cfg) (ck : Cook
   simp only [Option.some.injEq, ID.gen.injEq] at this
   omega
 
-/-- **step `k` is a request that presents `X`, mints an id, and sends no deletion cookie.** -/
+/-- **step `k` is a request that presents `X`, mints an id, and sends no deletion cookie** (the process being alive
+and no crash point armed when it arrives). -/
 def MintsFor (le : ID → ID → Bool) (w0 : World) (hist : List (Orc × Op)) (k : Nat) (X : ID) : Prop :=
   ∃ o client spec ip ua create, hist[k]? = some (o, .req client spec ip ua create) ∧
+    (runG4 le w0 {} (hist.take k)).1.skip = false ∧ (runG4 le w0 {} (hist.take k)).1.freezeAt = none ∧
     presOf (runG4 le w0 {} (hist.take k)).1 client spec = some (X, 24) ∧
     ((runG4 le w0 {} (hist.take k)).1.step le o (.req client spec ip ua create)).1.st.nextId ≠
       (runG4 le w0 {} (hist.take k)).1.st.nextId ∧
@@ -739,12 +832,13 @@ def MintsFor (le : ID → ID → Bool) (w0 : World) (hist : List (Orc × Op)) (k
 theorem mintsFor_rotates (le : ID → ID → Bool) (cfg : Cfg) (ck : CookieCfg) (hist : List (Orc × Op))
     (hok : Hist4OK le { cfg := cfg, ck := ck } hist) {k : Nat} {X : ID}
     (h : MintsFor le { cfg := cfg, ck := ck } hist k X) : RotatesAt le { cfg := cfg, ck := ck } hist k X := by
-  obtain ⟨o, client, spec, ip, ua, create, hk, hp, hne, hnd⟩ := h
+  obtain ⟨o, client, spec, ip, ua, create, hk, hsk, hfz, hp, hne, hnd⟩ := h
   obtain ⟨hw, hd, ho, _, _⟩ := hist4_at le cfg ck hist hok hk
-  rcases c04_req_mints le _ o client spec ip ua create hw hd ho hp with e | e | ⟨_, _, ⟨rc, e1, e2⟩, _⟩
+  have heff := (req4_view le _ o client spec ip ua create hw hd ho hsk hfz).2.1
+  rcases c04_req_mints le _ o client spec ip ua create hw hd ho hsk hfz hp with e | e | ⟨_, _, ⟨rc, e1, e2⟩, _⟩
   · exact absurd e hne
   · exact absurd e hnd
-  · exact ⟨o, _, rc, _, hk, e1, e2, Nat.le_refl _⟩
+  · exact ⟨o, _, rc, _, hk, by rw [heff]; exact e1, e2, Nat.le_refl _⟩
 
 /-- **C04 (2), in the words of the property**: of all the requests of a history that present the same id `X`, at most
 one mints an id without refusing `X` (without sending the deletion cookie) — the one that rotates `X`; all the others
@@ -758,9 +852,10 @@ theorem c04_presented_mints_once (le : ID → ID → Bool) (cfg : Cfg) (ck : Coo
 /-! ## 5. part 3 — all of them receive the same session -/
 
 /-- **step `k` of the history is a request that presents `X` and is given a session** (whose id is then `i`) without a
-deletion cookie in the response. -/
+deletion cookie in the response (the process being alive and no crash point armed when it arrives). -/
 def ServedAt (le : ID → ID → Bool) (w0 : World) (hist : List (Orc × Op)) (k : Nat) (X i : ID) : Prop :=
   ∃ o client spec ip ua create h, hist[k]? = some (o, .req client spec ip ua create) ∧
+    (runG4 le w0 {} (hist.take k)).1.skip = false ∧ (runG4 le w0 {} (hist.take k)).1.freezeAt = none ∧
     presOf (runG4 le w0 {} (hist.take k)).1 client spec = some (X, 24) ∧
     Ev.delCookie ∉ ((runG4 le w0 {} (hist.take k)).1.step le o (.req client spec ip ua create)).2.cookies ∧
     ((runG4 le w0 {} (hist.take k)).1.step le o (.req client spec ip ua create)).1.cur = some h ∧
@@ -773,9 +868,9 @@ theorem served_root (le : ID → ID → Bool) (cfg : Cfg) (ck : CookieCfg) (hist
     (hok : Hist4OK le { cfg := cfg, ck := ck } hist) {k : Nat} {X i : ID}
     (hs : ServedAt le { cfg := cfg, ck := ck } hist k X i) :
     (runG4 le { cfg := cfg, ck := ck } {} hist).2.rootOf i = (runG4 le { cfg := cfg, ck := ck } {} hist).2.rootOf X := by
-  obtain ⟨o, client, spec, ip, ua, create, h, hk, hp, hnd, hcur, hid⟩ := hs
+  obtain ⟨o, client, spec, ip, ua, create, h, hk, hsk, hfz, hp, hnd, hcur, hid⟩ := hs
   obtain ⟨hw, hd, ho, st, hrun⟩ := hist4_at le cfg ck hist hok hk
-  obtain ⟨hS, _, v2, _, v4, v5, v6, v7⟩ := req4_view le _ o client spec ip ua create hw hd ho
+  obtain ⟨hS, _, _, v2, _, v4, v5, v6, v7, v8⟩ := req4_view le _ o client spec ip ua create hw hd ho hsk hfz
   obtain ⟨hc1, hc2⟩ := reqOf1_pres ip ua create hp
   rw [v2] at hnd
   rw [v4] at hcur
@@ -793,11 +888,11 @@ theorem served_root (le : ID → ID → Bool) (cfg : Cfg) (ck : CookieCfg) (hist
     rcases hS.mintX X hc1 hc2 hnd2 with e | e
     · exact e.mono st.next
     · exact absurd hres (e h)
-  have hop := (histOK_at hok hk).2.1
+  have hop := (histOK_at hok hk).2
   rw [← runG4_fst le _ {}] at hop
   have hw' := step_inv3 le _ o (.req client spec ip ua create) hw ho hop
   have hmi : Minted ((runG4 le { cfg := cfg, ck := ck } {} (hist.take k)).1.step le o (.req client spec ip ua create)).1.st.nextId i := by
-    have := ((hw'.inv.good st.rot.alive.1).2 h (by rw [v4, hout, hres]; rfl)).minted
+    have := ((hw'.inv.good v8).2 h (by rw [v4, hout, hres]; rfl)).minted
     rw [hid] at this; exact this
   -- stability from the boundary k+1 to the end
   obtain ⟨s1, s2, s3, s4⟩ := hist4_split le cfg ck hist hok (k + 1)
@@ -861,21 +956,11 @@ theorem c04_same_handle (cfg : Cfg) (s : State) (r : Req) (hnf : NoFail s) (hi :
 
 /-! ## 6. non-vacuity, and the failing cases -/
 
-/-- Boolean version of `Op4OK`. -/
-def op4OKb : Op → Bool
-  | .crashinside _ => false
-  | _ => true
-
-theorem op4OK_of_b {op : Op} (h : op4OKb op = true) : Op4OK op := by
-  cases op <;> first | trivial | simp [op4OKb] at h
-
 /-- a syntactic sufficient condition for `Hist4OK` (decidable by the kernel): fault-free oracles, no codec switch,
-user-wide `LogOut`/`RefreshUser` only between requests (`bracketedB`), no `crashinside`. -/
+user-wide `LogOut`/`RefreshUser` only between requests (`bracketedB`). -/
 theorem hist4OK_of_synt (le : ID → ID → Bool) (hist : List (Orc × Op)) (cfg : Cfg) (ck : CookieCfg)
-    (hb : bracketedB false hist = true) (h4 : hist.all (fun p => op4OKb p.2) = true) :
-    Hist4OK le { cfg := cfg, ck := ck } hist :=
-  ⟨histOK_of_bracketed le hist _ false hb (fun _ => rfl),
-   fun p hp => op4OK_of_b (List.all_eq_true.1 h4 p hp)⟩
+    (hb : bracketedB false hist = true) : Hist4OK le { cfg := cfg, ck := ck } hist :=
+  histOK_of_bracketed le hist _ false hb (fun _ => rfl)
 
 /-- what the trace says about saves: (id, reference field). -/
 def saveView (tr : List Ev) : List (ID × Option ID) :=
@@ -916,13 +1001,13 @@ def c04_script : List (Orc × Op) :=
     ({}, .req "x" (.val (.gen 0) 24) "1.2.3.4:5" "ua" true),      -- 25: gone: a new session, with the deletion cookie
     ({}, .endReq) ]
 
-theorem c04_script_ok : Hist4OK idLe {} c04_script := hist4OK_of_synt idLe c04_script {} {} (by decide) (by decide)
+theorem c04_script_ok : Hist4OK idLe {} c04_script := hist4OK_of_synt idLe c04_script {} {} (by decide)
 
 /-- the theorems apply to the script. -/
 example : Rot4 (runG4 idLe {} {} c04_script).1 (runG4 idLe {} {} c04_script).2 ∧ Fine {} (traceOf idLe {} c04_script) :=
   (rot4_all_histories idLe {} {} c04_script c04_script_ok).2
 example (n : Nat) : Rot4 (runG4 idLe {} {} (c04_script.take n)).1 (runG4 idLe {} {} (c04_script.take n)).2 :=
-  (rot4_all_histories idLe {} {} _ (c04_script_ok.take n)).2.1
+  (rot4_all_histories idLe {} {} _ (HistOK.take c04_script_ok n)).2.1
 
 -- two replacements, each recorded once; both ids have the session number of `gen 0`
 #guard (runG4 idLe {} {} c04_script).2.repl == [(.gen 3, .gen 4), (.gen 0, .gen 3)]
@@ -942,24 +1027,35 @@ example (n : Nat) : Rot4 (runG4 idLe {} {} (c04_script.take n)).1 (runG4 idLe {}
 def c04_flush_script : List (Orc × Op) :=
   [ ({}, .req "a" .none "" "" true), ({}, .h .regen), ({}, .endReq), ({}, .purge) ]
 
-theorem c04_refsave_twice : Hist4OK idLe {} c04_flush_script := hist4OK_of_synt idLe _ {} {} (by decide) (by decide)
+theorem c04_refsave_twice : Hist4OK idLe {} c04_flush_script := hist4OK_of_synt idLe _ {} {} (by decide)
 #guard saveView (traceOf idLe {} c04_flush_script) ==
   [(.gen 0, none), (.gen 1, none), (.gen 0, some (.gen 1)), (.gen 0, some (.gen 1)), (.gen 1, none)]
 
-/-- **`Op4OK` is needed**: the process dies inside the rotation of `gen 0`, after the first of its two mutations
-(`crashinside 1`): the record under the new id `gen 1` is written, the reference record under `gen 0` is *shown* but
-not written. After the restart `gen 0` is still a full session and is rotated again, to `gen 2`: the trace shows two
-reference saves under `gen 0` with different targets. The history satisfies everything but `Op4OK`. -/
+/-- **a crash point inside a rotation**: the process dies inside the rotation of `gen 0`, after the first of its two
+mutations (`crashinside 1`): the record under the new id `gen 1` is written, the reference record under `gen 0` is
+*shown* (`Out.evs`) but not written. After the restart `gen 0` is still a full session and is rotated again, to `gen 2`.
+The events shown contain two reference saves under `gen 0` with different targets — which is why the trace is made of
+the events that took effect (`effEvs`, honouring `Out.frozen`): in it `gen 0` is replaced once, by `gen 2`, and the
+theorems apply (`gen 1` stays behind as an orphan record, cf. C10). -/
 def c04_crashinside_script : List (Orc × Op) :=
   [ ({}, .req "a" .none "" "" true), ({}, .endReq), ({}, .cfg "idExpiry" 0),
     ({}, .crashinside 1), ({}, .req "a" .jar "" "" false), ({}, .endReq),
     ({}, .req "a" .jar "" "" false), ({}, .endReq) ]
 
-theorem c04_crashinside_fails : HistOK idLe {} c04_crashinside_script ∧ ¬ Hist4OK idLe {} c04_crashinside_script :=
-  ⟨histOK_of_bracketed idLe _ _ false (by decide) (fun _ => rfl),
-   fun h => h.2 ({}, .crashinside 1) (by simp [c04_crashinside_script])⟩
-#guard saveView (traceOf idLe {} c04_crashinside_script) ==
+theorem c04_crashinside_ok : Hist4OK idLe {} c04_crashinside_script := hist4OK_of_synt idLe _ {} {} (by decide)
+
+example : Fine {} (traceOf idLe {} c04_crashinside_script) := (rot4_all_histories idLe {} {} _ c04_crashinside_ok).2.2
+
+/-- the events *shown*, in order. -/
+def shownOf (le : ID → ID → Bool) (w : World) : List (Orc × Op) → List Ev
+  | [] => []
+  | (o, op) :: r => (w.step le o op).2.evs ++ shownOf le (w.step le o op).1 r
+
+#guard saveView (shownOf idLe {} c04_crashinside_script) ==
   [(.gen 0, none), (.gen 1, none), (.gen 0, some (.gen 1)), (.gen 2, none), (.gen 0, some (.gen 2))]
+#guard saveView (traceOf idLe {} c04_crashinside_script) ==
+  [(.gen 0, none), (.gen 1, none), (.gen 2, none), (.gen 0, some (.gen 2))]
+#guard (runG4 idLe {} {} c04_crashinside_script).2.repl == [(.gen 0, .gen 2)]
 
 /-! ### parts 2 and 3 on the script -/
 
@@ -968,7 +1064,7 @@ def rotatesAtB (le : ID → ID → Bool) (w0 : World) (hist : List (Orc × Op)) 
   match hist[k]? with
   | none => false
   | some (o, op) =>
-    ((runG4 le w0 {} (hist.take k)).1.step le o op).2.evs.any (fun e =>
+    (effEvs ((runG4 le w0 {} (hist.take k)).1.step le o op).2).any (fun e =>
       match e with
       | .save X' rc => X' == X && (match rc.ref with
           | some (.gen n) => decide ((runG4 le w0 {} (hist.take k)).1.st.nextId ≤ n)
